@@ -10,6 +10,7 @@ package gen
 //@ func (*Number).Reset
 //@   exact
 //@   opt exactprops = C02
+//@   ensures [C07 own] arrid(n.BigBuf) == old(arrid(n.BigBuf))
 //@   modifies n.I, n.Frac, n.Div, n.Exp, n.Neg, n.NegExp, n.BigBuf
 //@   ensures [C02 inv] NumInv(n)
 //@   ensures [C02 C07 reset] n.I == 0 && n.Frac == 0 && n.Div == 1 && n.Exp == 0 && !n.Neg && !n.NegExp && len(n.BigBuf) == 0
@@ -25,6 +26,7 @@ package gen
 //@ func (*Number).AddDigit
 //@   exact
 //@   opt exactprops = C02
+//@   ensures [C07 own] arrid(n.BigBuf) == old(arrid(n.BigBuf)) || fresh(n.BigBuf)
 //@   requires '0' <= b && b <= '9' && NumInv(n)
 //@   ensures [C02 inv] NumInv(n)
 //@   modifies n.I, n.BigBuf, heap(n.BigBuf)
@@ -38,6 +40,7 @@ package gen
 //@ func (*Number).AddFrac
 //@   exact
 //@   opt exactprops = C02
+//@   ensures [C07 own] arrid(n.BigBuf) == old(arrid(n.BigBuf)) || fresh(n.BigBuf)
 //@   requires '0' <= b && b <= '9' && NumInv(n)
 //@   ensures [C02 inv] NumInv(n)
 //@   modifies n.Frac, n.Div, n.BigBuf, heap(n.BigBuf)
@@ -47,6 +50,7 @@ package gen
 //@ func (*Number).AddExp
 //@   exact
 //@   opt exactprops = C02
+//@   ensures [C07 own] arrid(n.BigBuf) == old(arrid(n.BigBuf)) || fresh(n.BigBuf)
 //@   requires '0' <= b && b <= '9' && NumInv(n)
 //@   ensures [C02 inv] NumInv(n)
 //@   modifies n.Exp, n.BigBuf, heap(n.BigBuf)
@@ -57,6 +61,8 @@ package gen
 //@ func (*Number).AsNum
 //@   exact
 //@   opt exactprops = C02
+//@   ensures [C07 own] arrid(n.BigBuf) == old(arrid(n.BigBuf)) || fresh(n.BigBuf)
+//@   ensures [C02 inv] len(n.BigBuf) == 0 ==> NumInv(n)
 //@   requires NumInv(n)
 //@   modifies n.BigBuf, heap(n.BigBuf)
 //@   ensures [C02 int] old(len(n.BigBuf)) == 0 && old(n.Div) == 1 && old(n.Exp) == 0 && !n.ForceFloat
